@@ -266,3 +266,48 @@ func RefReplyDecode(b []byte) (r RawReply, listok bool, ok bool) {
 	}
 	return r, listok, true
 }
+
+// RawMapEntry is one entry of the client's persisted server map:
+// key [32] | banned u8 | location length u16 | location | http u16 | tcp u16 | udp u16
+type RawMapEntry struct {
+	Key      [32]byte
+	Banned   bool
+	Location string
+	Ports    [3]uint16
+}
+
+func RefServerMapDecode(b []byte) (out []RawMapEntry, ok bool) {
+	for len(b) > 0 {
+		if len(b) < 35 {
+			return out, false
+		}
+		var e RawMapEntry
+		copy(e.Key[:], b[:32])
+		e.Banned = b[32] != 0
+		ll := int(binary.LittleEndian.Uint16(b[33:]))
+		b = b[35:]
+		if len(b) < ll+6 {
+			return out, false
+		}
+		e.Location = string(b[:ll])
+		b = b[ll:]
+		for i := 0; i < 3; i++ {
+			e.Ports[i] = binary.LittleEndian.Uint16(b[2*i:])
+		}
+		b = b[6:]
+		out = append(out, e)
+	}
+	return out, true
+}
+
+func RefServerMapEncode(entries []RawMapEntry) []byte {
+	var out []byte
+	for _, e := range entries {
+		bn := byte(0)
+		if e.Banned {
+			bn = 1
+		}
+		out = append(out, cat(e.Key[:], []byte{bn}, le16(uint16(len(e.Location))), []byte(e.Location), le16(e.Ports[0]), le16(e.Ports[1]), le16(e.Ports[2]))...)
+	}
+	return out
+}
